@@ -217,3 +217,52 @@ pub fn repeat_text(index: u64) -> String {
     t.push_str(post);
     t
 }
+
+
+// ---------------------------------------------------------------- multi-line strings
+//
+// Every multi-line string of 1..3 `\\` lines in which each line independently ends in LF or CR LF
+// and has one of 6 last characters (none, ASCII, blank, 2-, 3-, 4-byte), in 4 contexts (value of a
+// let followed by another line; at the end of the text with / without a final newline; followed by
+// an indented blank tail): the lexer's treatment of the line ends must not depend on their mixture.
+
+const ML_LAST: [&str; 6] = ["", "a", " ", "é", "✓", "𝄞"];
+const ML_CONTEXTS: u64 = 4;
+
+pub fn mlstring_count() -> u64 {
+    // lines = 1, 2, 3: (2 * 6)^lines combinations each
+    (12 + 144 + 1728) * ML_CONTEXTS
+}
+
+pub fn mlstring_text(index: u64) -> String {
+    let ctx = index % ML_CONTEXTS;
+    let mut k = index / ML_CONTEXTS;
+    let lines = if k < 12 {
+        1
+    } else if k < 12 + 144 {
+        k -= 12;
+        2
+    } else {
+        k -= 12 + 144;
+        3
+    };
+    let mut body = String::new();
+    let mut ends = vec![];
+    for i in 0..lines {
+        let c = (k % 12) as usize;
+        k /= 12;
+        let nl = if c % 2 == 0 { "\n" } else { "\r\n" };
+        ends.push(nl);
+        body.push_str(&format!("        \\\\line{i}{}", ML_LAST[c / 2]));
+        if i + 1 < lines {
+            body.push_str(nl);
+        }
+    }
+    let last_nl = ends[lines - 1];
+    match ctx {
+        0 => format!("fn main() {{\n    let s =\n{body}{last_nl}    ;\n    ()\n}}\n"),
+        1 => format!("fn main() {{\n    let s =\n{body}{last_nl}"),
+        2 => format!("fn main() {{\n    let s =\n{body}"),
+        _ => format!("fn main() {{\n    let s =\n{body}{last_nl}    \t "),
+    }
+}
